@@ -233,6 +233,130 @@ def _deco_leaf(d):
     return None
 
 
+try:
+    import threading as _threading
+    _threading.stack_size(256 * 1024 * 1024)
+except (ValueError, RuntimeError):
+    pass
+
+
+class LazyIter:
+    """A single-use iterator (generator expression, zip / map / filter / enumerate / reversed / iter object): its elements are
+    computed when it is created, but each is handed out only once -- iterating it a second time yields nothing, as in Python."""
+
+    def __init__(self, items):
+        self.items = list(items)
+        self.pos = 0
+
+    def next(self):
+        if self.pos >= len(self.items):
+            raise StopIteration
+        self.pos += 1
+        return self.items[self.pos - 1]
+
+    def drain(self):
+        out = self.items[self.pos:]
+        self.pos = len(self.items)
+        return out
+
+    def __repr__(self):
+        return "<iterator %d/%d>" % (self.pos, len(self.items))
+
+
+class GenObj(LazyIter):
+    """A generator object: the body of the generator function runs in its own thread, strictly alternating with the consumer,
+    so that the statements between two `yield`s execute when the consumer asks for the next element (true laziness: side effects
+    interleave with the consumer's exactly as in Python; abandoning the generator abandons the rest of its body)."""
+
+    def __init__(self, it, fn, env):
+        import threading
+        import queue
+        self.it, self.fn, self.env = it, fn, env
+        self.to_gen, self.to_consumer = queue.Queue(), queue.Queue()
+        self.thread = None
+        self.done = False
+        self.saved_stack = [fn]
+        self.saved_depth = 0
+        self._threading = threading
+        it.live_generators.append(self)
+
+    def _body(self):
+        it = self.it
+        msg = self.to_gen.get()
+        if msg == "close":
+            return
+        try:
+            it.gen_stack.append(self)
+            try:
+                try:
+                    it.block(self.fn.body, self.env)
+                except _Return:
+                    pass
+            finally:
+                it.gen_stack.pop()
+            self.to_consumer.put(("stop", None))
+        except _GenClose:
+            self.to_consumer.put(("stop", None))
+        except BaseException as e:      # noqa -- relayed to the consumer
+            self.to_consumer.put(("exc", e))
+
+    def _resume(self):
+        it = self.it
+        base = len(it.fn_stack)
+        it.fn_stack.extend(self.saved_stack)
+        it.depth += len(self.saved_stack)
+        self.to_gen.put("go")
+        kind, val = self.to_consumer.get()
+        self.saved_stack = it.fn_stack[base:]
+        del it.fn_stack[base:]
+        it.depth -= len(self.saved_stack)
+        return kind, val
+
+    def next(self):
+        if self.done:
+            raise StopIteration
+        if self.thread is None:
+            self.thread = self._threading.Thread(target=self._body, daemon=True)
+            self.thread.start()
+        kind, val = self._resume()
+        if kind == "yield":
+            return val
+        self.done = True
+        if kind == "exc":
+            raise val
+        raise StopIteration
+
+    def yield_(self, value):
+        """Called in the generator's thread by `yield`."""
+        self.to_consumer.put(("yield", value))
+        msg = self.to_gen.get()
+        if msg == "close":
+            raise _GenClose()
+        return None
+
+    def drain(self):
+        out = []
+        while True:
+            try:
+                out.append(self.next())
+            except StopIteration:
+                return out
+
+    def close(self):
+        if self.thread is not None and not self.done:
+            self.done = True
+            self.to_gen.put("close")
+            self.thread.join(timeout=5)
+        self.done = True
+
+    def __repr__(self):
+        return "<generator %s>" % fn_label(self.fn)
+
+
+class _GenClose(BaseException):
+    pass
+
+
 class CtxGen:
     """The object returned by calling a @contextmanager generator function: its body runs when a `with` statement enters it."""
 
@@ -350,7 +474,11 @@ class Interp:
         self.class_attrs = {}    # (class name, attribute) -> value stored at run time on a class object
         self.globals_cache = {}  # (module, name) -> value of a module-level / class-level binding (evaluated once, shared)
         self.deco_cache = {}     # id(FunctionDef) -> decorated value (decorators are applied once, at definition time)
+        self.overrides = {}      # name of an external function (spsolve, time, print) -> python callable standing in for it
+        self.lossy_ok = False    # display formatting of numbers allowed (text is only printed / logged, never parsed again)
         self.class_inited = set()
+        self.gen_stack = []          # generator objects whose body is currently executing (innermost last)
+        self.live_generators = []
         self.ph_of = {}          # poly key -> placeholder token
         self.ph_val = {}         # placeholder token -> Poly
         self.int_tokens = set()  # keys of Polys that stand for (arbitrarily large) integer ids
@@ -569,20 +697,17 @@ class Interp:
         self.depth += 1
         if self.depth > self.MAX_DEPTH:
             raise Unsupported("recursion too deep in %s" % fn_label(fn))
+        if _is_generator(fn):
+            self.depth -= 1
+            return GenObj(self, fn, env)
         self.fn_stack.append(fn)
-        is_gen = _is_generator(fn)
-        if is_gen:
-            self.yield_stack.append([])
         try:
             try:
                 self.block(fn.body, env)
             except _Return as r:
-                if not is_gen:
-                    return r.value
-            return self.yield_stack[-1] if is_gen else None
+                return r.value
+            return None
         finally:
-            if is_gen:
-                self.yield_stack.pop()
             self.fn_stack.pop()
             self.depth -= 1
 
@@ -687,7 +812,17 @@ class Interp:
             else:
                 self.block(st.orelse, env)
         elif isinstance(st, ast.For):
-            seq = self.iterate(self.ev(st.iter, env), st)
+            src = self.ev(st.iter, env)
+            if isinstance(src, LazyIter):
+                def pull(src=src):
+                    while True:
+                        try:
+                            yield src.next()
+                        except StopIteration:
+                            return
+                seq = pull()
+            else:
+                seq = self.iterate(src, st)
             broke = False
             for el in seq:
                 self.assign(st.target, el, env)
@@ -898,6 +1033,8 @@ class Interp:
             self.fn_stack.pop()
 
     def iterate(self, v, node):
+        if isinstance(v, LazyIter):
+            return v.drain()
         if isinstance(v, (list, tuple)):
             return list(v)
         if isinstance(v, Obj) and self.dunder(v, "__iter__") is not None:
@@ -1168,15 +1305,25 @@ class Interp:
         return m(n, env)
 
     def ev_Yield(self, n, env):
-        if not self.yield_stack:
+        if not self.gen_stack:
             raise self.unsupported("yield outside a generator", n)
-        self.yield_stack[-1].append(self.ev(n.value, env) if n.value is not None else None)
-        return None
+        return self.gen_stack[-1].yield_(self.ev(n.value, env) if n.value is not None else None)
 
     def ev_YieldFrom(self, n, env):
-        if not self.yield_stack:
+        if not self.gen_stack:
             raise self.unsupported("yield outside a generator", n)
-        self.yield_stack[-1].extend(self.iterate(self.ev(n.value, env), n))
+        g = self.gen_stack[-1]
+        inner = self.ev(n.value, env)
+        if isinstance(inner, LazyIter):
+            while True:
+                try:
+                    x = inner.next()
+                except StopIteration:
+                    break
+                g.yield_(x)
+        else:
+            for x in self.iterate(inner, n):
+                g.yield_(x)
         return None
 
     def ev__Lit(self, n, env):
@@ -1360,6 +1507,9 @@ class Interp:
             l = r
         return True
 
+    def compare_values(self, op, l, r):
+        return self.cmp(None, l, op, r)
+
     def cmp(self, node, l, op, r):
         if isinstance(op, (ast.Is, ast.IsNot)):
             same = self.identical(l, r)
@@ -1486,6 +1636,9 @@ class Interp:
                 k += 1
                 if isinstance(v, (Poly, Wrapped)) and (m.group(5) not in ("s", "r") or m.group(3) or m.group(4)):
                     if not (m.group(5) in ("d", "i") and v.key() in self.int_tokens):
+                        if self.lossy_ok:
+                            out.append("<display>")
+                            continue
                         raise LossyOperation("number formatted with %%%s (not the shortest round-trip repr)" % m.group(5), self.where(n))
                 out.append(self.render(v, n))
             out.append(a[pos:])
@@ -2046,6 +2199,8 @@ class Interp:
 
     def imported_call(self, origin, args, kw, n):
         leaf = origin.rsplit(".", 1)[-1]
+        if leaf in self.overrides:
+            return self.overrides[leaf](*args, **kw)
         if origin.startswith("logging") and leaf == "getLogger":
             return Opaque("logger")
         if origin.startswith("warnings"):
@@ -2505,8 +2660,14 @@ class Interp:
                 val = kw[field]
             else:
                 raise self.unsupported("format field %r" % field, n)
+            if self.lossy_ok and not isinstance(val, (str, Poly, Wrapped, bool, type(None))):
+                out.append("<display>")
+                continue
             if isinstance(val, (Poly, Wrapped)):
                 ok_spec = spec in ("", "r", "s") or spec in (".17g", ".17e", ".16e", "r")
+                if (not ok_spec or conv not in (None, "r", "s")) and self.lossy_ok:
+                    out.append("<display>")
+                    continue
                 if not ok_spec or conv not in (None, "r", "s"):
                     raise LossyOperation("number formatted with format spec %r (not the shortest round-trip repr)" % (":" + spec if spec else "!" + str(conv)), self.where(n))
             out.append(self.render(val, n))
@@ -2612,12 +2773,14 @@ class Interp:
             iv = [self.intval(a, n) for a in args]
             return [Poly.const(i) for i in range(*iv)]
         if name == "zip":
-            return [tuple(x) for x in zip(*[self.iterate(a, n) for a in args])]
+            if kw.get("strict") is True and len({len(self.iterate(a, n)) for a in args}) > 1:
+                raise PathRaise("ValueError(zip() arguments have different lengths)", self.where(n))
+            return LazyIter([tuple(x) for x in zip(*[self.iterate(a, n) for a in args])])
         if name == "enumerate":
-            start = self.intval(args[1], n) if len(args) > 1 else 0
-            return [(Poly.const(i + start), x) for i, x in enumerate(self.iterate(args[0], n))]
+            start = self.intval(args[1] if len(args) > 1 else kw["start"], n) if (len(args) > 1 or "start" in kw) else 0
+            return LazyIter([(Poly.const(i + start), x) for i, x in enumerate(self.iterate(args[0], n))])
         if name == "reversed":
-            return list(reversed(self.iterate(args[0], n)))
+            return LazyIter(list(reversed(self.iterate(args[0], n))))
         if name in ("set", "frozenset"):
             seq = self.iterate(args[0], n) if args else []
             r = set(self.hashable(x, n) for x in seq)
@@ -2680,6 +2843,13 @@ class Interp:
                 raise self.unsupported("setattr on %r" % (obj,), n)
             return None
         if name == "next":
+            if isinstance(args[0], LazyIter):
+                try:
+                    return args[0].next()
+                except StopIteration:
+                    if len(args) > 1:
+                        return args[1]
+                    raise PathRaise("StopIteration", self.where(n))
             seq = self.iterate(args[0], n)
             if seq:
                 return seq[0]
@@ -2697,12 +2867,12 @@ class Interp:
             iv = [None if a is None else self.intval(a, n) for a in args]
             return slice(*iv)
         if name == "iter":
-            return self.iterate(args[0], n)
+            return args[0] if isinstance(args[0], LazyIter) else LazyIter(self.iterate(args[0], n))
         if name == "map":
             seqs = [self.iterate(a, n) for a in args[1:]]
-            return [self.call_value(args[0], list(xs), n) for xs in zip(*seqs)]
+            return LazyIter([self.call_value(args[0], list(xs), n) for xs in zip(*seqs)])
         if name == "filter":
-            return [x for x in self.iterate(args[1], n) if (self.truth(self.call_value(args[0], [x], n), n) if args[0] is not None else self.truth(x, n))]
+            return LazyIter([x for x in self.iterate(args[1], n) if (self.truth(self.call_value(args[0], [x], n), n) if args[0] is not None else self.truth(x, n))])
         if name == "sorted":
             seq = list(self.iterate(args[0], n))
             keyf = kw.get("key")
@@ -2750,10 +2920,19 @@ class Interp:
             return self.vfs[path]
         if name in ("str", "repr"):
             return self.render(args[0], n)
-        if name == "all":
-            return all(self.truth(x, n) for x in self.iterate(args[0], n))
-        if name == "any":
-            return any(self.truth(x, n) for x in self.iterate(args[0], n))
+        if name in ("all", "any"):
+            src = args[0]
+            if isinstance(src, LazyIter):
+                while True:       # consumes only as far as the answer requires
+                    try:
+                        x = src.next()
+                    except StopIteration:
+                        return name == "all"
+                    if self.truth(x, n) != (name == "all"):
+                        return name == "any"
+            if name == "all":
+                return all(self.truth(x, n) for x in self.iterate(src, n))
+            return any(self.truth(x, n) for x in self.iterate(src, n))
         if name == "sum":
             items = self.iterate(args[0], n)
             acc = args[1] if len(args) > 1 else Poly()
@@ -2776,6 +2955,8 @@ class Interp:
                 cls, slf = args
             return SuperRef(cls.name, slf)
         if name == "print":
+            if "print" in self.overrides:
+                return self.overrides["print"](*args)
             return None
         if name == "int" and isinstance(args[0], str):
             return self.parse_number(args[0], n, integer=True)
@@ -2792,7 +2973,8 @@ class Interp:
         self.comp(n.generators, 0, dict(env), lambda e: out.append(self.ev(n.elt, e)))
         return out
 
-    ev_GeneratorExp = ev_ListComp
+    def ev_GeneratorExp(self, n, env):
+        return LazyIter(self.ev_ListComp(n, env))
 
     def ev_SetComp(self, n, env):
         out = []
@@ -2832,6 +3014,9 @@ class Interp:
                 if v.format_spec is not None:
                     spec = self.ev_JoinedStr(v.format_spec, env)
                 conv = {-1: None, 115: "s", 114: "r", 97: "a"}.get(v.conversion, None)
+                if isinstance(val, (Poly, Wrapped)) and (spec not in ("", "r", "s", ".17g", ".17e", ".16e") or conv == "a") and self.lossy_ok:
+                    out.append("<display>")
+                    continue
                 if isinstance(val, (Poly, Wrapped)) and (spec not in ("", "r", "s", ".17g", ".17e", ".16e") or conv == "a"):
                     raise LossyOperation("number formatted with format spec %r (not the shortest round-trip repr)" % spec, self.where(n))
                 out.append(self.render(val, n))
@@ -3515,10 +3700,14 @@ def explore(pkg, run, hook=None, max_paths=256):
         script = stack.pop()
         it = Interp(pkg, script=script, hook=hook)
         try:
-            val = run(it)
-            res = PathResult(list(it.conds), value=val, events=it.events, wrap_uses=it.wrap_uses, thin=it.thin)
-        except PathRaise as e:
-            res = PathResult(list(it.conds), raised=e, events=it.events, wrap_uses=it.wrap_uses, thin=it.thin)
+            try:
+                val = run(it)
+                res = PathResult(list(it.conds), value=val, events=it.events, wrap_uses=it.wrap_uses, thin=it.thin)
+            except PathRaise as e:
+                res = PathResult(list(it.conds), raised=e, events=it.events, wrap_uses=it.wrap_uses, thin=it.thin)
+        finally:
+            for g_ in it.live_generators:
+                g_.close()       # abandoned generators: let their threads unwind
         results.append(res)
         if len(results) > max_paths:
             raise Unsupported("more than %d paths" % max_paths)
